@@ -50,6 +50,13 @@ class Prelude:
 
 
 @dataclass
+class Generated:
+    """text produced mechanically from /repo by a unit-supplied function `fn(unitbuild) -> str` (spec-only text)."""
+    fn: object
+    label: str = 'generated'
+
+
+@dataclass
 class Atoms:
     """rule R4: placeholder replaced, after all items are extracted, by generated `macro_rules!` that map every
     `local_name!("x")` / `ns!(x)` / `namespace_prefix!("x")` occurring in the extracted text to a distinct integer
@@ -351,7 +358,9 @@ class UnitBuild:
                 if wrap is not None:
                     self.gen.add(wrap + ' {', 'gen')
                 open_wrap = wrap
-            if isinstance(part, Atoms):
+            if isinstance(part, Generated):
+                self.gen.add(part.fn(self), 'generated', part.label, 1)
+            elif isinstance(part, Atoms):
                 self.atoms_at = len(self.gen.lines)
                 self.atoms_part = part
                 self.gen.add('/*ATOMS*/', 'gen')
